@@ -389,6 +389,52 @@ class Gen:
                "r": fld(fld(var(a), 1), 1) if deep else fld(var(a), 2)}
         return {"k": "block", "ss": ss, "tail": res}
 
+    def noncopy_enum_probe(self, ctx):
+        """The same variant of a NON-copyable enum (one variant carries an array) built twice from the same copyable
+        payload, both values used afterwards (u32 result): optimisations that share identical constructions must
+        not share these."""
+        r = self.r
+        p = self.pid
+        u32 = T("u32")
+        arr = {"k": "array", "t": u32}
+        if r.random() < 0.5:
+            ety = {"k": "enum", "name": f"Nc{p}", "kind": "user", "vs": [u32, arr, UNITT]}
+            known = getattr(self, "nc_enums", [])
+            if not any(e["name"] == ety["name"] for e in known):
+                self.nc_enums = known + [ety]
+            tag = r.choice([0, 0, 2])
+        else:
+            ety = opt(arr)
+            tag = 1
+        vs = self.vars_of(ctx, u32)
+        arg = ({"k": "var", "n": r.choice(vs)[0]} if vs and r.random() < 0.7 else {"k": "lit", "v": r.choice([0, 3, 9]), "ty": "u32"})
+        # the two values are built in a helper and returned as a pair, so both are really used by the caller
+        payload = {"k": "var", "n": "a0"}
+        mk = lambda: {"k": "enum", "ety": ety, "tag": tag, "e": payload if ety["vs"][tag]["k"] != "unit" else NONE}
+        self.nc_count = getattr(self, "nc_count", 0) + 1
+        hname = f"p{p}_nc{self.nc_count}"
+        pair = {"k": "tuple", "ts": [ety, ety]}
+        self.fns[hname] = {"params": ["a0"], "ptys": [u32], "ret": pair,
+                           "body": {"k": "block", "ss": [], "tail": {"k": "tuple", "name": "", "es": [mk(), mk()]}},
+                           "inline": r.choice(["", "", "never", "always"])}
+        o1, o2 = self.fresh(ctx), self.fresh(ctx)
+        ss = [{"k": "lettuple", "ns": [o1, o2], "e": {"k": "call", "f": hname, "args": [arg]}}]
+
+        def observe(o, base):
+            arms = []
+            for i, vt in enumerate(ety["vs"]):
+                if vt["k"] == "int":
+                    n = self.fresh(ctx)
+                    arms.append({"n": n, "body": {"k": "block", "ss": [], "tail": {"k": "bin", "op": "add", "ty": "u32", "l": {"k": "bin", "op": "rem", "ty": "u32", "l": {"k": "var", "n": n}, "r": {"k": "lit", "v": 1000, "ty": "u32"}}, "r": {"k": "lit", "v": base, "ty": "u32"}}}})
+                elif vt["k"] == "array":
+                    n = self.fresh(ctx)
+                    arms.append({"n": n, "body": {"k": "block", "ss": [], "tail": {"k": "alen", "a": n}}})
+                else:
+                    arms.append({"n": "", "body": {"k": "block", "ss": [], "tail": {"k": "lit", "v": base + 5, "ty": "u32"}}})
+            return {"k": "match", "ety": ety, "e": {"k": "var", "n": o}, "arms": arms}
+        res = {"k": "bin", "op": "add", "ty": "u32", "l": observe(o1, 10000), "r": observe(o2, 20000)}
+        return {"k": "block", "ss": ss, "tail": res}
+
     def span_probe(self, ctx):
         """A buffer padded with the same run-time value many times; spans are taken before and after the last append
         and both are observed (u32 result)."""
@@ -682,7 +728,7 @@ class Gen:
         first = self.loop_struct_probe(ctx, force=True)
         second = r.choice([lambda: self.span_probe(ctx), lambda: self.array_probe(ctx, "u32", 1),
                            lambda: self.loop_struct_probe(ctx), lambda: self.pass_trigger(ctx, "u32", 1)])()
-        es = [first, second]
+        es = [first, second, self.noncopy_enum_probe(ctx)]
         r.shuffle(es)
         # a helper that takes a tuple / struct apart and re-assembles it with its (same-typed) members permuted or
         # duplicated - the shape on which "destructure cancels construct" shortcuts must not fire
@@ -980,6 +1026,9 @@ def render(gen):
     for s in getattr(gen, "nested_structs", []) + gen.structs:
         out.append("#[derive(Copy, Drop, PartialEq, Serde)]")
         out.append(f"struct {s['name']} {{ " + ", ".join(f"f{i + 1}: {cty(t)}" for i, t in enumerate(s["ts"])) + " }")
+    for e in getattr(gen, "nc_enums", []):
+        out.append("#[derive(Drop)]")
+        out.append(f"enum {e['name']} {{ " + ", ".join(f"V{i}" + ("" if t["k"] == "unit" else f": {cty(t)}") for i, t in enumerate(e["vs"])) + " }")
     for e in gen.enums:
         out.append("#[derive(Copy, Drop, PartialEq, Serde)]")
         out.append(f"enum {e['name']} {{ " + ", ".join(f"V{i}" + ("" if t["k"] == "unit" else f": {cty(t)}") for i, t in enumerate(e["vs"])) + " }")
